@@ -41,3 +41,47 @@ class LoopSpec:
         conj2, foralls2 = self.inv(ex, env, ghost)
         ex.obls.append((self.name + '.preserve', list(ex.pc), list(conj2), list(foralls2), 'invariant is preserved by an arbitrary iteration', list(ex.foralls)))
         raise PathEnd()
+
+
+class ForWhereSpec:
+    """`for i in np.where(c)[0]:` with an invariant Inv(bound): "every index t with c(t) and t < bound has been processed".
+    Obligations: Inv(0) on entry; for an arbitrary i with c(i): Inv(i) and the body establish Inv(i+1); after the loop Inv(n).
+    (Between two consecutive elements of the enumeration the processed set does not change, so Inv(W[k]+1) = Inv(W[k+1]).)"""
+    def __init__(self, name, havoc, inv):
+        self.name = name
+        self.havoc = havoc
+        self.inv = inv
+
+    def run(self, ex, st, env):
+        from .extern import WhereArr
+        it = ex.ev(st.iter, env)
+        if not isinstance(it, WhereArr):
+            raise Unsupported(f'{self.name}: loop iterable is not np.where(...)[0]')
+        c = it.cond
+        n = c.shape[0]
+        conj, foralls = self.inv(ex, env, 0)
+        ex.obls.append((self.name + '.init', list(ex.pc), list(conj), list(foralls), 'invariant holds on loop entry (nothing processed)', list(ex.foralls)))
+        self.havoc(ex, env)
+        if ex.choice(self.name + '.iter'):
+            i = ex.newvar('i_loop', 'int')
+            ex.assume(z3.And(i >= 0, i < tonum(n)))
+            ex.assume(toz(tobool(c.elem((i,)))))
+            ex.add_index_term(i)
+            conj, foralls = self.inv(ex, env, i)
+            for cc in conj:
+                ex.assume(cc)
+            for f in foralls:
+                ex.add_forall(f)
+            ex.assign(st.target, i, env)
+            try:
+                ex.block(st.body, env)
+            except (Brk, Cont):
+                raise Unsupported('break/continue inside a for-where loop under contract')
+            conj2, foralls2 = self.inv(ex, env, i + 1)
+            ex.obls.append((self.name + '.preserve', list(ex.pc), list(conj2), list(foralls2), 'processing one more selected index preserves the invariant', list(ex.foralls)))
+            raise PathEnd()
+        conj, foralls = self.inv(ex, env, tonum(n))
+        for cc in conj:
+            ex.assume(cc)
+        for f in foralls:
+            ex.add_forall(f)
